@@ -187,7 +187,7 @@ def place_str(place, fn=None):
 class Fn:
     __slots__ = ('raw', 'path', 'name', 'blocks', 'locals', 'argc', 'ret', 'file', 'l0', 'l1', 'kind',
                  'parent', 'vis', 'exported', 'from_expansion', 'coroutine',
-                 '_succ', '_pred', '_defs', '_live', '_expr_cache', '_dom')
+                 '_succ', '_pred', '_defs', '_live', '_expr_cache', '_dom', 'facts', '_captures')
 
     def __init__(self, raw):
         self.raw = raw
@@ -212,6 +212,21 @@ class Fn:
         self._live = None
         self._expr_cache = {}
         self._dom = None
+        self.facts = None
+        self._captures = None
+
+    def captures(self):
+        """for a closure: expressions (in the parent's frame) of the captured operands, by index"""
+        if self._captures is None:
+            self._captures = []
+            if self.kind == 'Closure' and self.parent and self.facts is not None:
+                pf = self.facts.fns.get(self.parent)
+                if pf is not None:
+                    for bi, si, pl, rv, ln in pf.stmts():
+                        if rv[0] == 'aggr' and rv[1] in ('closure', 'coroutine') and self.facts.norm(rv[2]) == self.name:
+                            self._captures = [('upvar', pf.expr_of_op(o)) for o in rv[3]]
+                            break
+        return self._captures
 
     # -- basic structure
     def local_ty(self, i):
@@ -395,14 +410,15 @@ class Fn:
                     pl = s[0]
                     if len(pl) == 1:
                         d[pl[0]].append(('s', bi, si, s[1]))
-                    else:
+                    elif pl[1] != '*':
+                        # a write through a pointer does not redefine the pointer
                         d[pl[0]].append(('part', bi, si, s[1], pl))
                 t = b['t']
                 if t['k'] == 'call':
                     pl = t['d']
                     if len(pl) == 1:
                         d[pl[0]].append(('call', bi, t))
-                    else:
+                    elif pl[1] != '*':
                         d[pl[0]].append(('part', bi, -1, None, pl))
             self._defs = d
         return self._defs
@@ -442,7 +458,13 @@ class Fn:
 
     def expr_of_place(self, place, depth=24):
         e = self.expr_of_local(place[0], depth)
-        for el in place[1:]:
+        for k, el in enumerate(place[1:]):
+            if isinstance(el, list) and el[0] == 'f' and el[1].startswith('closure ') and self.kind == 'Closure' and place[0] == 1 and el[2].isdigit():
+                caps = self.captures()
+                i = int(el[2])
+                if i < len(caps):
+                    e = caps[i]
+                    continue
             if isinstance(el, list) and el[0] == 'i':
                 e = ('index', e, self.expr_of_local(el[1], depth - 1))
             elif isinstance(el, list) and el[0] == 'c':
@@ -543,7 +565,7 @@ def _project(e, el):
 def strip(e):
     """remove ref / deref / cast / Deref::deref / clone wrappers"""
     while True:
-        if e[0] in ('ref', 'deref'):
+        if e[0] in ('ref', 'deref', 'upvar'):
             e = e[1]
         elif e[0] == 'cast':
             e = e[1]
@@ -589,6 +611,8 @@ def canon(e):
     k = e[0]
     if k in ('ref', 'deref'):
         r = canon(e[1])
+    elif k == 'upvar':
+        r = ('upvar', canon(e[1]))
     elif k == 'cast':
         r = canon(e[1])
     elif k == 'call':
@@ -623,7 +647,7 @@ def field_chain(e):
         if e[0] == 'field':
             chain.append((e[2], e[3]))
             e = e[1]
-        elif e[0] in ('ref', 'deref', 'cast'):
+        elif e[0] in ('ref', 'deref', 'cast', 'upvar'):
             e = e[1]
         elif e[0] == 'variant':
             e = e[1]
@@ -699,6 +723,8 @@ def show(e, depth=6):
         return e[1]
     if k == 'ref':
         return '&' + show(e[1], depth)
+    if k == 'upvar':
+        return '^' + show(e[1], depth)
     if k == 'deref':
         return '*' + show(e[1], depth)
     if k == 'field':
@@ -752,6 +778,7 @@ class Facts:
                     k += 1
                 f.name = '%s#%d' % (f.name, k)
             self.fns[f.name] = f
+            f.facts = self
         for f in fl:
             # normalise callee names once
             for b in f.blocks:
@@ -1258,3 +1285,14 @@ def all_switches(facts, fn):
         if not b['cu'] and b['t']['k'] == 'sw':
             out[bi] = resolve_switch(facts, fn, bi)
     return out
+
+
+def write_target(fn, place):
+    """(owner, field) a statement's destination place denotes, seen through closure captures"""
+    fs = place_fields(place)
+    if fs and not fs[-1][0].startswith('closure '):
+        return fs[-1]
+    if len(place) == 1:
+        return None
+    e = fn.expr_of_place(place)
+    return last_field(e) if strip(e)[0] == 'field' else None
